@@ -259,12 +259,14 @@ impl Store {
         // `cut`, the subscription everything after it (ephemeral frames included).
         let (broadcast_rx, cut) = if should_follow {
             let _guard = self.append_lock.lock().unwrap();
+            #[cfg(feature = "verif")]
+            crate::verif::sync("read.subscribed", None, verif_reader);
             (Some(self.broadcast_tx.subscribe()), Some(scru128::new()))
         } else {
             (None, None)
         };
         #[cfg(feature = "verif")]
-        crate::verif::sync("read.subscribed", None, verif_reader);
+        crate::verif::sync("read.start", None, verif_reader);
 
         // Only create done channel if we're doing historical processing
         let done_rx = if !options.tail {
